@@ -79,17 +79,30 @@ class SimText(io.TextIOBase):
     """A text reader written in Python.  ``read()`` returns everything; sized reads and
     ``readline`` return short / chunked data, which the ``TextIOBase`` contract allows."""
 
-    def __init__(self, text: str, chunk: int = 7) -> None:
+    def __init__(self, text: str, chunk: int = 7, fail_at: int | None = None,
+                 fail_exc: BaseException | None = None) -> None:
         super().__init__()
         self._t = text
         self._p = 0
         self._chunk = max(1, chunk)
         self.sized_reads = 0
+        self._calls = 0
+        self._fail_at = fail_at
+        self._fail_exc = fail_exc
+        self.fault_fired = False
+
+    def _maybe_fail(self) -> None:
+        self._calls += 1
+        if self._fail_at is not None and not self.fault_fired and self._calls >= self._fail_at:
+            self.fault_fired = True
+            assert self._fail_exc is not None
+            raise self._fail_exc
 
     def readable(self) -> bool:
         return True
 
     def read(self, size: int | None = -1) -> str:  # type: ignore[override]
+        self._maybe_fail()
         if size is None or size < 0:
             out = self._t[self._p:]
             self._p = len(self._t)
@@ -101,6 +114,7 @@ class SimText(io.TextIOBase):
         return out
 
     def readline(self, size: int = -1) -> str:  # type: ignore[override]
+        self._maybe_fail()
         j = self._t.find("\n", self._p)
         end = len(self._t) if j < 0 else j + 1
         if size is not None and size >= 0:
@@ -212,14 +226,15 @@ _MISSING = object()
 
 def make_reader(kind: str, data: bytes, *, fs: SimFS | None = None, path: str | None = None,
                 encoding: str = "utf-8", newline: Any = None, tape: dict[str, Any] | None = None,
-                chunk: int = 7) -> Any:
+                chunk: int = 7, fail_at: int | None = None,
+                fail_exc: BaseException | None = None) -> Any:
     """A caller-supplied reader for ``Chart.from_file``."""
     if kind == "stringio":
         enc = "utf-8-sig" if encoding == "utf-8-sig" else "utf-8"
         return io.StringIO(data.decode(enc), newline=newline)
     if kind == "simtext":
         enc = "utf-8-sig" if encoding == "utf-8-sig" else "utf-8"
-        return SimText(data.decode(enc), chunk=chunk)
+        return SimText(data.decode(enc), chunk=chunk, fail_at=fail_at, fail_exc=fail_exc)
     if kind == "textio":
         assert fs is not None and path is not None
         raw = fs.raw(path, tape or {})
